@@ -328,22 +328,24 @@ func (fx *FnCtx) rootName() string {
 
 // query builds the SMT text for an obligation.
 func (fx *FnCtx) query(o *Obligation) string {
-	var b strings.Builder
-	b.WriteString(fx.eng.prelude)
-	b.WriteString(fx.decls.Text())
+	var as strings.Builder
 	for i, a := range fx.assumes[:o.NAssume] {
 		if o.Using != nil {
 			if l, ok := fx.assumeLabel[i]; ok && !contains(o.Using, l) {
 				continue
 			}
 		}
-		b.WriteString("(assert ")
-		b.WriteString(a)
-		b.WriteString(")\n")
+		as.WriteString("(assert ")
+		as.WriteString(a)
+		as.WriteString(")\n")
 	}
-	b.WriteString("(assert (not ")
-	b.WriteString(imp(o.Guard, o.Cond))
-	b.WriteString("))\n")
+	as.WriteString("(assert (not ")
+	as.WriteString(imp(o.Guard, o.Cond))
+	as.WriteString("))\n")
+	var b strings.Builder
+	b.WriteString(fx.eng.prelude)
+	b.WriteString(fx.decls.TextFor(as.String()))
+	b.WriteString(as.String())
 	return b.String()
 }
 
